@@ -276,3 +276,30 @@ Proof.
       * assert (N0 : (0 <=? n)%Z = true) by lia. rewrite N0. cbn [vexec vstep1 a_int andb]. unfold on_list, vpanic. rewrite R. cbn [olen].
         change (Z.of_nat 0) with 0%Z. destruct (n <=? 0)%Z; cbn [vexec]; apply vp_res_rel_refl.
 Qed.
+
+(* ================================================================== Map.Set *)
+Definition is_invalid (v : pval) : bool := match v with PInvalid => true | _ => false end.
+
+Lemma step_mset_badval sch h kk t r k v : pval_to_elem t v = None -> step sch h (OMSet (PMap kk t r) k v) = (h, PPanic).
+Proof. intro P. cbn [step]. rewrite P. destruct (read_map h r) as [[m|]|]; reflexivity. Qed.
+Lemma step_mset_badkey sch h kk t r k v : wt_scalar kk k = false -> step sch h (OMSet (PMap kk t r) k v) = (h, PPanic).
+Proof. intro W. cbn [step]. rewrite W. destruct (read_map h r) as [[m|]|]; destruct (pval_to_elem t v); reflexivity. Qed.
+Lemma pte_invalid t : pval_to_elem t PInvalid = None.
+Proof. destruct t; reflexivity. Qed.
+
+Lemma map_set_prog_correct : map_set_prog_stmt.
+Proof.
+  intros sch h kk t r k v Hwf Hok Hop. unfold vp_agrees, vp_canon_step. cbn [vp_step canon_map vm_set]. unfold run_view.
+  cbn [vp_op_okb] in Hop. cbn [vexec vstep1 a_key a_value].
+  destruct (is_invalid v) eqn:I.
+  - destruct v; try discriminate. unfold vpanic. rewrite (step_mset_badval _ _ _ _ _ _ _ (pte_invalid t)). apply vp_res_rel_refl.
+  - assert (Hop' : str_key_okb kk k && (negb (wt_scalar kk k) || str_val_okb t v) = true) by (destruct v; try exact Hop; discriminate).
+    apply andb_prop in Hop'. destruct Hop' as [Sk Sv].
+    replace (match v with PInvalid => vpanic h | _ => VONext h vregs0 end) with (VONext h vregs0) by (destruct v; try reflexivity; discriminate).
+    cbn [vexec vstep1 a_key]. rewrite key_conv_canon. destruct (wt_scalar kk k) eqn:W.
+    + cbn [negb orb] in Sv. cbn [vexec vstep1 a_value]. rewrite val_conv_canon. destruct (pval_to_elem t v) as [e|] eqn:P.
+      * cbn [vexec vstep1 set_val set_key g_key g_val]. unfold on_map, vpanic. cbn [step]. rewrite P, W.
+        destruct (read_map h r) as [[kvs|]|]; cbn [vexec]; apply vp_res_rel_refl.
+      * rewrite (str_val_none _ _ P Sv). unfold vpanic. rewrite (step_mset_badval _ _ _ _ _ _ _ P). apply vp_res_rel_refl.
+    + rewrite (str_key_not_wt _ _ W Sk). unfold vpanic. rewrite (step_mset_badkey _ _ _ _ _ _ _ W). apply vp_res_rel_refl.
+Qed.
